@@ -296,41 +296,49 @@ example : K13.tyOK (.enumeration [("a", 0), ("b", 1), ("c", 2)]) = true ∧
 /-- a non-canonical key value (`007`) is what `canonT` excludes: the `sort` callback cannot tell it from `7` -/
 example : K13.canonT klS [klI "007" []] = false ∧ wfForest klS [klI "007" []] = true := by decide +kernel
 
-/-- `reverse_apply` is false as written for user-ordered leaf-lists (finding F15(a)): the reversed moves keep their forward
-order.  A = `0 1 2`, B = `1 2 0`: the result is `0 2 1`. -/
+/-- `reverse_apply` is false as written for user-ordered leaf-lists (finding F15(a)) while `lyd_diff_reverse_all` lacks the second
+pass over user-ordered nodes (`Generated.Diff13.reverseUserordRepaired = false`, read off `src/diff.c`): the reversed moves keep
+their forward order.  A = `0 1 2`, B = `1 2 0`: the result is `0 2 1`.  The repaired variant: Props/C13RevUO.lean. -/
 def uoS : Schema := { modName := "uo", nodes := [ { depth := 0, kind := .leaflist, name := "ul", ty := .uint8, userord := true } ] }
 def ul (v : Nat) : DNode := .term 0 {} [] (natBytes v)
 
 /-- the sibling order of the model is respected (`canon` is the identity) -/
 def canonB (S : Schema) (T : List DNode) : Bool := beqL (canon S (heightL T + 1) T) T
 
-theorem reverse_apply_userord_fails :
+theorem reverse_apply_userord_fails (hq : Generated.Diff13.reverseUserordRepaired = false) :
     ¬ ∀ (S : Schema) (A B : List DNode), canonB S A = true → canonB S B = true →
         ∃ A', reverseApply S true A B = .ok A' ∧ dataEqL true A' A = true := by
   intro h
   obtain ⟨A', h1, h2⟩ := h uoS [ul 0, ul 1, ul 2] [ul 1, ul 2, ul 0] (by decide +kernel) (by decide +kernel)
-  have h3 : (match reverseApply uoS true [ul 0, ul 1, ul 2] [ul 1, ul 2, ul 0] with
-      | .ok r => dataEqL true r [ul 0, ul 1, ul 2] | .error _ => false) = false := by decide +kernel
-  rw [h1] at h3
-  simp only at h3
-  rw [h2] at h3
-  exact absurd h3 (by decide)
+  have h3 : Generated.Diff13.reverseUserordRepaired = false →
+      (match reverseApply uoS true [ul 0, ul 1, ul 2] [ul 1, ul 2, ul 0] with
+        | .ok r => dataEqL true r [ul 0, ul 1, ul 2] | .error _ => false) = false := by decide +kernel
+  have h4 := h3 hq
+  rw [h1] at h4
+  simp only at h4
+  rw [h2] at h4
+  exact absurd h4 (by decide)
 
-/-- what the reversed diff of the witness does: it succeeds with the order `0 2 1` -/
-example : (match reverseApply uoS true [ul 0, ul 1, ul 2] [ul 1, ul 2, ul 0] with
-    | .ok r => dataEqL true r [ul 0, ul 2, ul 1] | .error _ => false) = true := by decide +kernel
+/-- what the reversed diff of the witness does while `lyd_diff_reverse_all` lacks the second pass
+(`Generated.Diff13.reverseUserordRepaired = false`): it succeeds with the order `0 2 1`; with the repair it gives `0 1 2` back
+(Props/C13RevUO.lean) -/
+example : Generated.Diff13.reverseUserordRepaired = false →
+    (match reverseApply uoS true [ul 0, ul 1, ul 2] [ul 1, ul 2, ul 0] with
+      | .ok r => dataEqL true r [ul 0, ul 2, ul 1] | .error _ => false) = true := by decide +kernel
 
 /-- … and (finding F15(b)) a reversed `delete` of a user-ordered instance is a `create` without `yang:value` / `key` /
 `position`: applying it fails.  A = `0 1`, B = `1`. -/
-theorem reverse_apply_userord_delete_fails :
+theorem reverse_apply_userord_delete_fails (hq : Generated.Diff13.reverseUserordRepaired = false) :
     ¬ ∀ (S : Schema) (A B : List DNode), canonB S A = true → canonB S B = true →
         ∃ A', reverseApply S true A B = .ok A' := by
   intro h
   obtain ⟨A', h1⟩ := h uoS [ul 0, ul 1] [ul 1] (by decide +kernel) (by decide +kernel)
-  have h3 : (match reverseApply uoS true [ul 0, ul 1] [ul 1] with
-      | .ok _ => false | .error e => e == .einval) = true := by decide +kernel
-  rw [h1] at h3
-  simp at h3
+  have h3 : Generated.Diff13.reverseUserordRepaired = false →
+      (match reverseApply uoS true [ul 0, ul 1] [ul 1] with
+        | .ok _ => false | .error e => e == .einval) = true := by decide +kernel
+  have h4 := h3 hq
+  rw [h1] at h4
+  simp at h4
 
 /-! ## merge -/
 
